@@ -110,7 +110,8 @@ class C05(Profile):
     wall_cap = {'quick': 900, 'thorough': 5 * 3600}
     probes = ['fudge_branch_2.0', 'fudge_branch_2.1', 'no_fudge_needed', 'clock_before_old', 'dict_chain_len>=3',
               'explicit_modified_sub_ms', 'sco_locked_refused', 'revoked_refused', 'reserialised_head',
-              'none_removed_property', 'chain_len>=5', 'granular_marking_as_version_minter', 'remove_custom_stix']
+              'none_removed_property', 'chain_len>=5', 'granular_marking_as_version_minter', 'remove_custom_stix',
+              'unmodifiable_removal_refused']
     rule = ('plans are generated from run_seed (1-4 chains over every versionable type of both spec versions in object / '
             'dict / unregistered-dict / SCO forms, 10-60 versioning ops each with a steered clock reading); a run is '
             'non-trivial when >=1 op produced a new version AND >=1 oracle comparison ran on it; distinct = distinct plan digests')
@@ -400,6 +401,14 @@ class C05(Profile):
                     world.stat('op_skipped')
                     return
                 kw = {'name': 'renamed.exe'}
+            if what in ('type', 'id', 'created', 'created_by_ref') and op.get('variant', 1) % 3 == 0 and what in hjson:
+                # removal (None) of an unmodifiable property is a change to it all the same
+                kw = {what: None}
+                world.probe('unmodifiable_removal_refused')
+                what = what + '=None'
+            sig_what = what
+            if what in ('type', 'id', 'created', 'created_by_ref', 'sco_contrib') or what.endswith('=None'):
+                pass
             elif what in ('sco_contrib_absent', 'sco_contrib_remove'):
                 if not form.startswith('sco') or ch.get('sco_v4'):
                     world.stat('op_skipped')
@@ -457,7 +466,7 @@ class C05(Profile):
             world.log(op=kind, outcome='same-object')
             return
         if expect == 'refused':
-            what = op.get('what', kind)
+            what = sig_what if kind == 'illegal' else op.get('what', kind)
             if st['revoked']:
                 what = 'revoked-' + kind
             raise Violation('illegal-request-refused', 'C05.illegal-accepted/%s' % what,
